@@ -36,3 +36,28 @@ package lexer
 //@   mode panics
 //@   requires l != nil
 //@   ensures[restart] l.start == l.end && l.startLoc.Line == l.loc.Line && l.startLoc.Column == l.loc.Column
+
+// escapes (C12): a hexadecimal digit has its positional value, whatever its case
+//@ func lexer.unhex returns r ok
+//@   property C12
+//@   mode nopanic
+//@   ensures[digit] b >= 48 && b <= 57 ==> ok && r == int32(b) - 48
+//@   ensures[lower] b >= 97 && b <= 102 ==> ok && r == int32(b) - 97 + 10
+//@   ensures[upper] b >= 65 && b <= 70 ==> ok && r == int32(b) - 65 + 10
+//@   ensures[other] !(b >= 48 && b <= 57) && !(b >= 97 && b <= 102) && !(b >= 65 && b <= 70) ==> !ok
+
+// unescapeChar never reads past the end of its (non-empty) input (C04): a truncated escape is an error value
+//@ func lexer.unescapeChar returns value multibyte tail err
+//@   property C04 C12
+//@   mode nopanic
+//@   requires len(s) > 0
+//@   ensures[plain] s[0] < 128 && s[0] != 92 ==> err == nil && value == int32(s[0]) && !multibyte
+//@   loop 0 invariant[bounds] j >= 0 && n >= 0 && n <= len(s)
+//@   loop 1 invariant[bounds] j >= 0 && len(s) >= 2
+
+// acceptWord is a lookahead: when the word does not follow, the lexer is exactly where it was (C12, C13)
+//@ func lexer.lexer.acceptWord returns ok
+//@   property C12 C13
+//@   mode panics
+//@   requires l != nil && l.end >= 0
+//@   ensures[rewind] !ok ==> l.end == old(l.end) && l.loc.Line == old(l.loc.Line) && l.loc.Column == old(l.loc.Column) && l.prev.Line == old(l.prev.Line) && l.prev.Column == old(l.prev.Column)
